@@ -37,10 +37,12 @@ MIN_EVALS = {'quick': 6000, 'thorough': 60000}
 # fractions of ALL evaluations (JSON cases are about 2/3 of them, array cases 1/3, PostgreSQL paths a few percent;
 # the PostgreSQL cases have no mode / form)
 CLASS_FLOORS = {'mode:fallback': 0.3, 'mode:json1': 0.3, 'form:gen': 0.3, 'form:str': 0.3,
-                'kind:json': 0.3, 'kind:array': 0.15, 'kind:pgpath': 0.01,
+                'kind:json': 0.3, 'kind:array': 0.12, 'kind:pgpath': 0.01,
                 'json:param_path': 0.08, 'json:quoted_key': 0.08, 'json:neg_index': 0.02, 'json:depth>=2': 0.06,
-                'json:cmp': 0.04, 'json:in': 0.04, 'json:truth': 0.04, 'json:proj': 0.04, 'json:len': 0.02,
-                'array:slice': 0.03, 'array:index': 0.03, 'array:contains': 0.02, 'array:subset': 0.02}
+                'json:cmp': 0.03, 'json:in': 0.03, 'json:truth': 0.03, 'json:proj': 0.03, 'json:len': 0.015,
+                'array:slice': 0.02, 'array:index': 0.02, 'array:contains': 0.01, 'array:subset': 0.01,
+                'json:multi': 0.08, 'multi:same_vars_other_literals': 0.04, 'multi:tuple': 0.015, 'multi:and': 0.015,
+                'multi:or': 0.008, 'multi:all_literal': 0.008}
 
 STUB_DIR = os.path.join(os.path.dirname(os.path.dirname(os.path.abspath(__file__))), 'vlib', 'stubs')
 
@@ -58,14 +60,29 @@ def _classes(case):
     out += ['mode:' + case['mode'], 'form:' + case['form'], kind + ':' + case['op']['t']]
     op = case['op']
     if kind == 'json':
-        path = op['path']
+        parts = M.op_parts(op)
+        path = [el for part in parts for el in part['path']]
         out.append('json:attr_' + case['attr'])
+        if op['t'] == 'multi':
+            out.append('multi:' + op['shape'])
+            out += ['multi:part_' + part['t'] for part in parts]
+            used = [set(el['v'] for el in part['path'] if el['m'] == 'p' and 'v' in el) for part in parts]
+            lits = [tuple((i, el['k']) for i, el in enumerate(part['path']) if el['m'] == 'c') for part in parts]
+            for a in range(len(parts)):
+                for b in range(a + 1, len(parts)):
+                    if used[a] and used[a] == used[b] and lits[a] != lits[b]:
+                        out.append('multi:same_vars_other_literals')
+                        break
+                else:
+                    continue
+                break
+            if all(not u for u in used): out.append('multi:all_literal')
         if any(el['m'] == 'p' for el in path): out.append('json:param_path')
         if any(isinstance(el['k'], str) and not _is_ident(el['k']) for el in path): out.append('json:quoted_key')
         if any(isinstance(el['k'], int) and el['k'] < 0 for el in path): out.append('json:neg_index')
-        if len(path) >= 2: out.append('json:depth>=2')
+        if any(len(part['path']) >= 2 for part in parts): out.append('json:depth>=2')
         if not path: out.append('json:depth0')
-        if op.get('vm') == 'p' or op.get('km') == 'p': out.append('json:param_operand')
+        if any(part.get('vm') == 'p' or part.get('km') == 'p' for part in parts): out.append('json:param_operand')
     else:
         out.append('array:' + op['attr'])
         for b in ('i', 'j'):
@@ -75,15 +92,18 @@ def _classes(case):
 
 def _nontrivial(case, rows):
     if case['kind'] == 'json':
-        keys = M.path_keys(case['op'])
+        paths = [M.path_keys(part) for part in M.op_parts(case['op'])]
         for (i, got, exp, ok) in rows:
-            if exp is not M.SKIP and M.traverse(case['docs'][i], keys) is not M.MISSING:
+            asserted = exp is not M.SKIP and not (isinstance(exp, tuple) and all(e is M.SKIP for e in exp))
+            if asserted and any(M.traverse(case['docs'][i], keys) is not M.MISSING for keys in paths):
                 return True
         return False
     return any(exp is not M.SKIP for (i, got, exp, ok) in rows)
 
 
 def _show(v):
+    if isinstance(v, tuple) and v is not M.SKIP:
+        return '(%s)' % ', '.join(_show(x) for x in v)
     return '<unspecified>' if v is M.SKIP else repr(v)
 
 
@@ -149,6 +169,8 @@ def run(ctx):
                  max_examples=n // 2, name='pg_path')
     if ctx.violation is None:
         ctx.run_test(lambda case: _one(ctx, case), dict(case=G.array_case()), max_examples=n // 2, name='array_ops')
+    if ctx.violation is None:
+        ctx.run_test(lambda case: _one(ctx, case), dict(case=G.json_multi_case()), max_examples=n // 2, name='json_multi')
     if ctx.violation is None:
         ctx.run_test(lambda case: _one(ctx, case), dict(case=G.json_case()), max_examples=n, name='json_ops')
 
@@ -283,15 +305,25 @@ def _x_pg_null_key(case, message):
     return case.get('kind') == 'pgpath' and any(isinstance(k, str) and k.upper() == 'NULL' for k in case['keys'])
 
 
+def _per_part(fn):
+    """a query that combines several path operations falls under a finding when one of its operations does"""
+    def lifted(case, message):
+        if case.get('kind') == 'json' and case['op']['t'] == 'multi':
+            return any(fn(dict(case, op=part), message) for part in case['op']['parts'])
+        return fn(case, message)
+    lifted.__doc__ = fn.__doc__
+    return lifted
+
+
 EXCLUSIONS = {
     'array_negative_bound_wraps': _x_array_negative_bound_wraps,
     'pg_backslash_key': _x_pg_backslash_key,
     'pg_null_key': _x_pg_null_key,
-    'traverse_typeerror': _x_traverse_typeerror,
-    'json1_negative_index': _x_json1_negative_index,
-    'key_needs_json_escape': _x_key_needs_json_escape,
-    'float_zero_is_true': _x_float_zero_is_true,
-    'cmp_casts_other_types': _x_cmp_casts_other_types,
+    'traverse_typeerror': _per_part(_x_traverse_typeerror),
+    'json1_negative_index': _per_part(_x_json1_negative_index),
+    'key_needs_json_escape': _per_part(_x_key_needs_json_escape),
+    'float_zero_is_true': _per_part(_x_float_zero_is_true),
+    'cmp_casts_other_types': _per_part(_x_cmp_casts_other_types),
 }
 
 MANIFEST = {
